@@ -121,13 +121,38 @@ def rule_workers(ctx):
         W.state_retained(ctx, P, [c for c, f in CRATES.items() if f == fam][0], fam, "R2", {"tcp": 0, "http": 2, "tls": 2}[fam])
         # R4 same pipeline
         def skeleton(b):
-            out = []
+            """the pipeline stages called, ordered by control flow (stage A is before stage B when B is reachable from A and not the
+            other way round) - the position of a block in the body says nothing once a helper was inlined or arms were reordered"""
+            sites = []
             for blk, t in Q.calls(b):
                 n = callee_of(t)
                 for key in ("raw_filter::apply", "packet_parser::parse_packet", "process::process_ipv4_packet", "process::process_ipv6_packet"):
                     if n.endswith(key):
-                        out.append(key.split("::")[-1])
-            return out
+                        sites.append((key.split("::")[-1], blk))
+
+            def reach(x, y):
+                seen, st = set(), list(b.succs(x))
+                while st:
+                    z = st.pop()
+                    if z == y:
+                        return True
+                    if z in seen:
+                        continue
+                    seen.add(z)
+                    st.extend(b.succs(z))
+                return False
+            import functools
+
+            def cmp(a_, b_):
+                if a_[1] == b_[1]:
+                    return 0
+                ab, ba = reach(a_[1], b_[1]), reach(b_[1], a_[1])
+                if ab and not ba:
+                    return -1
+                if ba and not ab:
+                    return 1
+                return (a_[0] > b_[0]) - (a_[0] < b_[0])
+            return [nm for nm, _ in sorted(sites, key=functools.cmp_to_key(cmp))]
         sk_w, sk_s = skeleton(wp), skeleton(sp)
         ctx.check(sk_w[:2] == sk_s[:2] == ["apply", "parse_packet"] and sorted(sk_w[2:]) == sorted(sk_s[2:]) and len(sk_w) == 4, "R4", fam + ":pipeline", "worker and sequential paths both call %s" % sk_s,
                   "worker pipeline %s differs from the sequential pipeline %s" % (sk_w, sk_s), ctx.loc(wp))
